@@ -406,6 +406,16 @@ func runConc(t *testing.T, rc *RunCtx, prop string) {
 			big.Entries = append(big.Entries, AttEntry(start+i, 1, 2, uint64(1000+i)))
 		}
 		ops = []*Op{big}
+		if ch.Pick(2, 0) == 1 {
+			// a second large batch over the same keys in the opposite order, voting differently for the same target:
+			// as a whole, one of the two comes first
+			rev := &Op{Kind: "atts", Client: "client2"}
+			for i := size - 1; i >= 0; i-- {
+				rev.Entries = append(rev.Entries, AttEntry(start+i, 1, 2, uint64(3000+i)))
+			}
+			ops = append(ops, rev)
+			rc.Stats.Inc("bulk_runs_with_two_large_batches", 1)
+		}
 		for i, n := 0, 1+ch.Pick(3, 0); i < n; i++ {
 			e := AttEntry(start+ch.Pick(size, 0), uint64(ch.Pick(2, 0)), 2, uint64(5000+i))
 			e.ByKey = ch.Pick(2, 0) == 1
@@ -431,6 +441,11 @@ func runConc(t *testing.T, rc *RunCtx, prop string) {
 	// In a third of the runs clients may abandon requests that are in flight (the request context is
 	// cancelled at a point the schedule chooses, independently of which thread runs next).
 	abandon := ch.Pick(3, 0) == 2
+	if bulk {
+		// The model for abandoned requests branches per entry; with hundreds of entries in one request the
+		// linearizability check would not stay tractable.  Bulk runs keep their clients.
+		abandon = false
+	}
 	cfg := SchedCfg{StayBias: stay, MaxSteps: 8 * budget, DeadlockProperty: prop}
 	// C15 only, a quarter of the runs: storage operations fail at a drawn rate (reads, single and batch writes).
 	// Requests must still all return and leave nothing locked; what they answer is C06's business.
